@@ -876,8 +876,21 @@ func (x *Exec) lookupLocalBefore(st *State, name string, at *ssa.BasicBlock, bef
 						if a, isAlloc := u.X.(*ssa.Alloc); isAlloc && spilledParam(a) {
 							continue // a read of a never-reassigned parameter: the parameter itself
 						}
+						if a, isAlloc := u.X.(*ssa.Alloc); isAlloc && a.Comment == name {
+							// a read of a variable that lives in memory (captured by a closure, address
+							// taken): the name denotes the cell's current content, not this earlier load
+							best = a
+							bestIsValue = false
+							continue
+						}
 					}
 					if _, isParam := v.X.(*ssa.Parameter); isParam {
+						continue
+					}
+					if a, isAlloc := best.(*ssa.Alloc); isAlloc && !bestIsValue && a.Comment == name && storedInto(a, v.X) {
+						// the value just stored into the variable's own cell: the name keeps denoting the
+						// cell (its content is what later instructions read and what a cut point
+						// forgets), not this one stored value
 						continue
 					}
 					best = v.X
@@ -895,6 +908,20 @@ func (x *Exec) lookupLocalBefore(st *State, name string, at *ssa.BasicBlock, bef
 		return st.loadAt(Addr{Root: val.T, Key: rootKey(pt), Ty: pt}), true
 	}
 	return val, true
+}
+
+// storedInto reports whether value v is stored into the cell a by some instruction.
+func storedInto(a *ssa.Alloc, v ssa.Value) bool {
+	refs := a.Referrers()
+	if refs == nil {
+		return false
+	}
+	for _, r := range *refs {
+		if s, ok := r.(*ssa.Store); ok && s.Addr == a && s.Val == v {
+			return true
+		}
+	}
+	return false
 }
 
 // assumeDominatingGuards adds, at a cut point, the conditions of all conditional branches whose
